@@ -27,9 +27,9 @@ func init() {
 		},
 		N: func(t string) int {
 			if t == "thorough" {
-				return 1200000
+				return 6000000
 			}
-			return 20000
+			return 200000
 		},
 		Batch: 20000,
 		Init:  sec.SelfTest,
